@@ -225,6 +225,9 @@ func buildDoc(defs []def, use string, useForm, useKind int, usePos int, useCont 
 		case 5:
 			sep2, q = " \n", "'"
 		}
+		if d.dest == "" {
+			dest = "<>"
+		}
 		s := "[" + d.label + "]:" + sep1 + dest
 		if d.title != "" {
 			s += sep2 + q + d.title + q
@@ -319,7 +322,7 @@ func buildDoc(defs []def, use string, useForm, useKind int, usePos int, useCont 
 	return sb.String()
 }
 
-var linkRE = regexp.MustCompile(`<(a href|img src)="(/d[0-9])"( title="(t[0-9])")?`)
+var linkRE = regexp.MustCompile(`<(a href|img src)="(/d[0-9]|)"( title="(t[0-9])")?`)
 
 func propResolve(c harness.Case) harness.Result {
 	n := c.I["ndefs"]
@@ -328,6 +331,11 @@ func propResolve(c harness.Case) harness.Result {
 		d := def{label: c.S[fmt.Sprintf("label%d", i)], dest: fmt.Sprintf("/d%d", i), cont: c.I[fmt.Sprintf("cont%d", i)]}
 		if c.I[fmt.Sprintf("title%d", i)] == 1 {
 			d.title = fmt.Sprintf("t%d", i)
+		}
+		if c.I[fmt.Sprintf("empty%d", i)] == 1 {
+			// a definition may have an empty destination (written <>); without a
+			// title it defines the label all the same, as the zero-valued entry
+			d.dest = ""
 		}
 		d.join = c.I[fmt.Sprintf("join%d", i)] == 1
 		d.spell = c.I[fmt.Sprintf("spell%d", i)]
@@ -458,6 +466,9 @@ func genResolve(t *rapid.T) harness.Case {
 		c.SetI(fmt.Sprintf("cont%d", i), rapid.IntRange(0, 4).Draw(t, "cont"))
 		c.SetI(fmt.Sprintf("join%d", i), rapid.IntRange(0, 1).Draw(t, "join"))
 		c.SetI(fmt.Sprintf("title%d", i), rapid.IntRange(0, 1).Draw(t, "title"))
+		if rapid.IntRange(0, 5).Draw(t, "empty") == 0 {
+			c.SetI(fmt.Sprintf("empty%d", i), 1)
+		}
 		if rapid.IntRange(0, 2).Draw(t, "respell") == 0 {
 			c.SetI(fmt.Sprintf("spell%d", i), rapid.IntRange(1, 5).Draw(t, "spell"))
 		}
